@@ -53,7 +53,7 @@ def parse_output(out, names):
         m = re.search(r"VERIFICATION:- (SUCCESSFUL|FAILED)", b)
         if m:
             verdict = m.group(1)
-        failed = re.findall(r"Failed Checks: (.*)\n\s*File: \"([^\"]*)\", line (\d+)", b)
+        failed = [(" ".join(m[0].split()), m[1], m[2]) for m in re.findall(r"Failed Checks: (.*?)\n\s*File: \"([^\"]*)\", line (\d+)", b, re.S)]
         tm = re.search(r"Verification Time: ([0-9.]+)s", b)
         covers = re.search(r"\*\* (\d+) of (\d+) cover properties satisfied", b)
         unwind_fail = "unwinding assertion" in b and re.search(r"unwinding assertion[^\n]*\n[^\n]*FAILURE", b) is not None
@@ -141,7 +141,7 @@ def run_group(group, tier="quick"):
             loc = f"{r['failed_checks'][0][1]}:{r['failed_checks'][0][2]}" if r["failed_checks"] else None
             out["failures"].append({"harness": h["name"], "kind": "kani check failed", "check": chk, "location": loc,
                                     "output": r["tail"], "concrete": ({"kani_concrete_playback": r["concrete"]} if r["concrete"] else None),
-                                    "replay_op": h.get("replay_op")})
+                                    "falsify_ops": h.get("falsify_ops", [])})
     return out
 
 
